@@ -22,7 +22,7 @@ RULE = ("12 aggregators (UPGrad, DualProj, MGDA, Mean, Sum, Aligned-MTL, IMTL-G,
         "distinct = (matrix, aggregator) sha1")
 EXHAUSTIVE_NOTE = {"quick": "all m! permutations for every judged matrix with m <= 4", "thorough": "all m! permutations for every judged matrix with m <= 5"}
 NAMES = ["UPGrad", "DualProj", "MGDA", "Mean", "Sum", "AlignedMTL", "IMTLG", "ConFIG", "CAGrad", "TrimmedMean", "Krum", "GradDrop", "Constant"]
-N = {"quick": 1300, "thorough": 52000}
+N = {"quick": 1300, "thorough": 80000}
 MAXM_EXH = {"quick": 4, "thorough": 5}
 
 
